@@ -188,6 +188,9 @@ func (b *Buffer) SetCleanerConfig(config CleanerConfig) error {
 
 	b.cleaner = &config
 
+	// the new config applies from now: wake the cleaner, so that it is evaluated against the current state
+	b.cond.Broadcast()
+
 	return nil
 }
 
